@@ -155,7 +155,16 @@ class USBDevice(object):
         return h
 
 
+class ClosedHandleUse(RuntimeError):
+    """A libusb call on a handle that has been closed: undefined behaviour in libusb (use after free, typically a crash). Not a USBError."""
+
+
 class USBDeviceHandle(object):
+    def _alive(self, what):
+        if self.closed:
+            CALLS.append(('use-after-close', what))
+            raise ClosedHandleUse('%s() on a closed libusb handle' % what)
+
     def __init__(self, device):
         self._device = device
         self.claimed = set()
@@ -175,10 +184,9 @@ class USBDeviceHandle(object):
 
     def claimInterface(self, interface):
         CALLS.append(('claimInterface', interface))
+        self._alive('claimInterface')
         if self._b() is not None:
             self._b().fault('claim')
-        if self.closed:
-            raise USBErrorNoDevice()
         if interface in self.kernel_driver:
             raise USBErrorBusy()          # libusb: LIBUSB_ERROR_BUSY if another program or driver has claimed the interface
         for h in self._device.handles:
@@ -188,6 +196,7 @@ class USBDeviceHandle(object):
 
     def releaseInterface(self, interface):
         CALLS.append(('releaseInterface', interface))
+        self._alive('releaseInterface')
         if self._b() is not None:
             self._b().fault('release')
         if interface not in self.claimed:
@@ -196,6 +205,7 @@ class USBDeviceHandle(object):
 
     def close(self):
         CALLS.append(('close',))
+        self._alive('close')
         if self._b() is not None:
             self._b().fault('close')
         self.closed = True
@@ -203,14 +213,12 @@ class USBDeviceHandle(object):
 
     def bulkRead(self, endpoint, length, timeout=0):
         CALLS.append(('bulkRead', endpoint, length, timeout))
-        if self.closed:
-            raise USBErrorNoDevice()
+        self._alive('bulkRead')
         return self._b().bulk_read(self, endpoint, length, timeout)
 
     def bulkWrite(self, endpoint, data, timeout=0):
         CALLS.append(('bulkWrite', endpoint, len(data), timeout))
-        if self.closed:
-            raise USBErrorNoDevice()
+        self._alive('bulkWrite')
         return self._b().bulk_write(self, endpoint, bytes(data), timeout)
 
 
